@@ -271,8 +271,11 @@ theorem typesGood_prefixMap (e : BEnv) (evs : List Ev) : TypesGood e (prefixMap 
     have hnsmem : ns ∈ collectUris evs := by
       unfold collectUris
       rw [List.mem_eraseDups]
-      refine List.mem_flatten.2 ⟨[ns], List.mem_map.2 ⟨_, hmem, ?_⟩, by simp⟩
-      simp [dataUris, targetUri, hs]
+      rcases hmem with hmem | hmem
+      · refine List.mem_flatten.2 ⟨[ns], List.mem_map.2 ⟨_, hmem, ?_⟩, by simp⟩
+        simp [dataUris, targetUri, hs]
+      · refine List.mem_flatten.2 ⟨[ns], List.mem_map.2 ⟨_, hmem, ?_⟩, by simp⟩
+        simp [dataUris, targetUri, hs]
     obtain ⟨i, hfind, hget⟩ := pmFrom_roundtrip ns 0 (collectUris evs) hnsmem
     rw [← prefixMap_eq] at hfind hget
     have hq : qnameText (prefixMap (collectUris evs)) t = ('q' :: natStr i) ++ ':' :: tag := by
